@@ -65,7 +65,7 @@ def worker(a):
     try:
         F = S.call_sf(h, cell, name, atoms, disp)
         n += 1
-        if abs(F - want) > tol:
+        if not (abs(F - want) <= tol):
             out.append("StructureFactor = %r, explicit sum over the cell contents = %r (|diff| %.3g > %.2g; atoms %s; dispersion %s) (%s)" %
                        (F, want, abs(F - want), tol, [(sp["el"], sp["adp_type"], len(r["orbit"])) for sp, r in zip(spec, recs)],
                         "none" if disp is None else disp, tag))
@@ -75,7 +75,7 @@ def worker(a):
         cell2 = gl.cell_from_recip_metric(met, c2)
         want2, _ = oracle(c2, False)
         Fb = S.call_sf(h, cell2, name, atoms, disp)
-        if abs(Fb - want2) > tol:
+        if not (abs(Fb - want2) <= tol):
             out.append("StructureFactor on the same atom objects in a second cell = %r, explicit sum = %r (|diff| %.3g): something computed for the "
                        "first cell is reused (%s)" % (Fb, want2, abs(Fb - want2), tag))
         # ... and in a cell with the SAME edge lengths but another angle (triclinic and monoclinic groups): whatever is remembered per
@@ -91,29 +91,29 @@ def worker(a):
                 met3 = [Gs[0, 0], Gs[1, 1], Gs[2, 2], Gs[1, 2], Gs[0, 2], Gs[0, 1]]
                 want3, _ = oracle(1.0, False, met3)
                 Fc = S.call_sf(h, cell3, name, atoms, disp)
-                if abs(Fc - want3) > tol:
+                if not (abs(Fc - want3) <= tol):
                     out.append("StructureFactor on the same atom objects in a cell with the same edge lengths and another angle = %r, explicit sum = %r "
                                "(|diff| %.3g): something remembered per (a, b, c) is reused (%s)" % (Fc, want3, abs(Fc - want3), tag))
         # corollaries
         sh_atoms = [S.make_atom(a_.label, a_.atomtype, [x + d for x, d in zip(a_.pos, (1, -2, 3))], a_.adp_type, a_.adp, a_.occ, a_.symmulti)
                     for a_ in atoms]
         F2 = S.call_sf(h, cell, name, sh_atoms, disp)
-        if abs(F2 - F) > tol:
+        if not (abs(F2 - F) <= tol):
             out.append("F changes by %.3g when the atoms are shifted by a lattice vector (%s)" % (abs(F2 - F), tag))
         half = [S.make_atom(a_.label, a_.atomtype, a_.pos, a_.adp_type, a_.adp, a_.occ / 2.0, a_.symmulti) for a_ in atoms]
         triple = [S.make_atom(a_.label, a_.atomtype, a_.pos, a_.adp_type, a_.adp, a_.occ * 3.0, a_.symmulti) for a_ in atoms]
         F9 = S.call_sf(h, cell, name, triple, disp)
-        if abs(F9 - 3 * F) > tol * 3:
+        if not (abs(F9 - 3 * F) <= tol * 3):
             out.append("F is not linear in occupancy: F(3 occ) - 3 F(occ) = %.3g (%s)" % (abs(F9 - 3 * F), tag))
         F3 = S.call_sf(h, cell, name, half, disp)
-        if abs(2 * F3 - F) > tol:
+        if not (abs(2 * F3 - F) <= tol):
             out.append("F is not linear in occupancy: 2 F(occ/2) - F(occ) = %.3g (%s)" % (abs(2 * F3 - F), tag))
         iso = [a_ for a_ in atoms if a_.adp_type == "Uiso"]
         if iso:
             eq = [S.make_atom(a_.label, a_.atomtype, a_.pos, "Uani", S.iso_uani(a_.adp, met), a_.occ, a_.symmulti) if a_.adp_type == "Uiso" else a_
                   for a_ in atoms]
             F4 = S.call_sf(h, cell, name, eq, disp)
-            if abs(F4 - F) > tol:
+            if not (abs(F4 - F) <= tol):
                 out.append("isotropic U and the equivalent anisotropic tensor give different F (|diff| %.3g) (%s)" % (abs(F4 - F), tag))
         n += 3
         # F(000) with zero displacement
@@ -121,7 +121,7 @@ def worker(a):
         F0 = S.call_sf([0, 0, 0], cell, name, z, disp)
         w0 = sum(a_.occ * a_.symmulti * complex(S.f0(ff[a_.atomtype], 0.0) + ((disp.get(a_.atomtype) or (0, 0))[0] if disp else 0.0),
                                               ((disp.get(a_.atomtype) or (0, 0))[1] if disp else 0.0)) for a_ in atoms)
-        if abs(F0 - w0) > 1e-9 * max(1.0, abs(w0)):
+        if not (abs(F0 - w0) <= 1e-9 * max(1.0, abs(w0))):
             out.append("F(000) with zero displacement = %r, occupancy-weighted form-factor sum = %r (%s)" % (F0, w0, tag))
         n += 1
     except Exception as ex:
